@@ -98,6 +98,59 @@ func runC13(w *World, r *Report) {
 		}
 	}
 
+	r.Rule("C13.key-wrappers-pass-errors-through", "the input-key / output-key wrappers put around a node's runnable return the inner runnable's error itself: the node-path extension of a nested graph's run error works on an *internalError that arrives directly, a decorated one starts a new path ([sub] instead of [sub, fail])", 4)
+	{
+		n := 0
+		for _, name := range []string{"inputKeyedComposableRunnable", "outputKeyedComposableRunnable"} {
+			outer := w.Fn("compose", name)
+			for _, lit := range withAnons(outer) {
+				if lit == outer {
+					continue
+				}
+				instrs(lit, func(in ssa.Instruction) {
+					c, ok := in.(*ssa.Call)
+					if !ok || c.Call.IsInvoke() || staticCallee(c) != nil {
+						return
+					}
+					// the inner runnable: a captured function value
+					v := c.Call.Value
+					if ld, ok := v.(*ssa.UnOp); ok {
+						v = ld.X
+					}
+					if _, isFV := v.(*ssa.FreeVar); !isFV {
+						return
+					}
+					tup, ok := c.Type().(*types.Tuple)
+					if !ok || tup.Len() != 2 {
+						return
+					}
+					ierr := extractOf(c, 1)
+					if ierr == nil {
+						return
+					}
+					n++
+					bad := 0
+					instrs(lit, func(x ssa.Instruction) {
+						ret, ok := x.(*ssa.Return)
+						if !ok || len(ret.Results) != 2 {
+							return
+						}
+						if !hasGuard(ret.Block(), func(g guard) bool { return guardNonNil(g, func(v ssa.Value) bool { return v == ssa.Value(ierr) }) }) {
+							return
+						}
+						if returnedValue(ret, 1) != ssa.Value(ierr) {
+							bad++
+						}
+					})
+					r.Check(bad == 0, "C13.key-wrappers-pass-errors-through", fmt.Sprintf("%s: the inner runnable's error is returned as it is", w.fname(lit)), c.Pos(), "return nil, err", "the wrapper decorates the inner error (fmt.Errorf(\"… %w\", err)): for a nested graph added with WithOutputKey (or a graph member of a chain Parallel) the inner run error no longer arrives as an *internalError, so the parent starts a new node path — the run error says [sub] instead of [sub, fail] and prints two unrelated one-element paths")
+				})
+			}
+		}
+		if n < 4 {
+			undecidedf("C13.key-wrappers-pass-errors-through: only %d inner calls found in the key wrappers", n)
+		}
+	}
+
 	r.Rule("C13.percent-w", "fmt.Errorf with an error operand on the run path uses %w", 30)
 	// armed: the framework's own propagation path between a node's return and the run's return, i.e.
 	// package compose functions reachable from the run entry points. Other packages are listed as info
